@@ -32,8 +32,11 @@ def main():
     res = {}
     try:
         rc, out = sh(f"git -C /repo worktree add -q --detach {wt} HEAD"); assert rc == 0, out
-        rc, out = sh(f"git apply {os.path.join(d, 'patch.diff')}", cwd=wt); assert rc == 0, "patch does not apply: " + out
-        rc, out = sh("git diff --name-only", cwd=wt)
+        rc, out = sh(f"git apply {os.path.join(d, 'patch.diff')}", cwd=wt)
+        if rc != 0:      # /repo has moved on since the patch was written (a later fix: commit): merge
+            rc, out = sh(f"git apply --3way {os.path.join(d, 'patch.diff')}", cwd=wt)
+        assert rc == 0, "patch does not apply: " + out
+        rc, out = sh("git diff --name-only HEAD", cwd=wt)
         files = [f for f in out.split() if f.endswith(".py")]
         rc, out = sh("/venv/bin/python -m pytest -q -p no:cacheprovider --no-cov "
                      "--deselect tests/menelaus/utils/test_utils.py::test_find_root_dir "
